@@ -85,6 +85,9 @@ def case_strategy(draw, tier):
         case["U"] = [draw(q), draw(q), draw(q)]
         case["D"] = [draw(d), draw(d), draw(d)]
         case["b"] = [draw(fl), draw(fl), draw(fl)]
+        # the same affine map written with another homogeneous scale: the whole 4x4 matrix times a constant (so its
+        # bottom-right entry is not 1; a uniform scale written as diag(1, 1, 1, 1/s) is the special case A = I)
+        case["hw"] = draw(st.sampled_from([1.0, 1.0, 2.0, 0.5, 4.0, 0.25, -2.0]))
     return case
 
 
@@ -154,6 +157,8 @@ def _make(case):
         tm = np.eye(4, dtype=np.float32)
         tm[:3, :3] = A
         tm[:3, 3] = b
+        hw = float(case.get("hw", 1.0))
+        tm = (tm * np.float32(hw)).astype(np.float32)
         f = T.AffineTransform(tm, **kw)
         Ai = np.linalg.inv(A)
         tmi = np.eye(4, dtype=np.float32)
@@ -161,6 +166,7 @@ def _make(case):
         # y = c + A(x-c) + b.  About the origin (c = 0): x = Ai y - Ai b.  About the root the inverse is
         # applied to the *moved* tree, whose root sits at c' = c + b: x = c' + Ai(y - c') - b.
         tmi[:3, 3] = (-Ai @ b) if center == "origin" else -b
+        tmi = (tmi * np.float32(1.0 / hw)).astype(np.float32)
         inv = lambda x: T.AffineTransform(tmi, **kw)(x)  # noqa
         return f, A, b, True, inv
     raise AssertionError(kind)
@@ -189,6 +195,8 @@ def run_case(case, ctx):
     is_rot = kind.startswith("rotate")
     th = case.get("theta", 0.0)
     generic_angle = (not is_rot) or abs(math.sin(2 * th)) > 2e-3
+    if kind == "affine" and case.get("hw", 1.0) != 1.0:
+        ctx.cls("affine-matrix-with-homogeneous-scale")
     ctx.cls("kind:" + kind, "center:" + center if uses_centre else "center:n/a", "via:" + case["via"],
             "regime:" + t["regime"], "root-at-0" if root == 0 else "root-not-at-0", "n>60" if n > 60 else "n<=60")
     if is_rot and not generic_angle:
@@ -294,7 +302,8 @@ SUBCHECKS = [
         required=dict({f"kind:{k}": 100 for k in KINDS}, **{"center:root": 200, "center:origin": 200,
                                                             "center:soma": 100, "via:classmethod": 300,
                                                             "angle:multiple-of-pi/2": 20, "root-not-at-0": 200, "n>60": 60,
-                                                            "transform-object-reused-on-a-tree-of-the-same-source": 150})),
+                                                            "transform-object-reused-on-a-tree-of-the-same-source": 150,
+                                                            "affine-matrix-with-homogeneous-scale": 60})),
     Sub("builders", builder_strategy, run_builder, quick=600, thorough=8000, shards_quick=2,
         required={"axis:general": 200, "axis:coordinate": 30}),
 ]
